@@ -20,6 +20,8 @@ type Analyzer struct {
 	writes     map[*ssa.Function]map[string]bool // transitive may-write locations
 	ownWrites  map[*ssa.Function]map[string]bool
 	summaries  map[string]*summary
+	ctxSummaries map[string]*summary
+	ctxDepth   int
 	calleeCache map[*ssa.Function][]*ssa.Function
 	shortIndex  map[string][]*ssa.Function
 	readsCache  map[*ssa.Function]map[string]bool
